@@ -1,0 +1,18 @@
+//go:build verif
+
+package tendermint
+
+// Contracts for the deductive verifier in /verif (govc). Comment-only; compiled only with -tags verif.
+
+//@ contract verifyDelayPeriodPassed
+//@   let ptRaw = vget(store, ProcessedTimeKey(proofHeight))
+//@   let pt = unbe64(ptRaw)
+//@   let now = blocktime(ctx) % 18446744073709551616
+//@   let phRaw = vget(store, ProcessedHeightKey(proofHeight))
+//@   let ph = clienttypes.ParseHeight(phRaw)
+//@   let selfN = selfRevision(ctx)
+//@   let selfH = height(ctx) % 18446744073709551616
+//@   ensures time_delay: err == nil && delayTimePeriod != 0 ==> ptRaw != "" && now >= pt + delayTimePeriod
+//@   ensures block_delay: err == nil && delayBlockPeriod != 0 ==> phRaw != "" && hcmp(selfN, selfH, ph.RevisionNumber, ph.RevisionHeight + delayBlockPeriod) >= 0
+//@   ensures zero_delay_ok: delayTimePeriod == 0 && delayBlockPeriod == 0 ==> err == nil
+//@   ensures pure: world(ctx) == old(world(ctx))
